@@ -10,9 +10,14 @@ Decided statically:
                     components are each other's images under relabelling of the axes
   static-K          with zero shift, a solution whose spatial metric does not depend on t has
                     K = 0, and one whose metric depends on t does not return zeros
-NOT decided: K = -(1/2 alpha) d_t gamma in general, Einstein's equations for the matter
-content, the published closed-form scalars -- these need differentiation and algebraic
-simplification of the expressions, which is computer algebra, not static analysis."""
+  K-from-metric     K_ij = -(1/(2 alpha)) d_t gamma_ij (zero shift) on exact normal forms after
+                    *syntactic* differentiation of the module's own gammadown3 (chain, product
+                    and power rules on the expression tree; nothing is evaluated), with two
+                    declared facts about functions written elsewhere in the modules
+NOT decided: Einstein's equations for the matter content and the published closed-form scalars
+-- these need second derivatives, inverse metrics and algebraic simplification of
+transcendental expressions, which is computer algebra, not static analysis.
+"""
 from __future__ import annotations
 
 import ast
